@@ -42,6 +42,11 @@ var Carriers = []Carrier{
 	{"time.Duration", "time.Duration(idOf(n))", "time"},
 	{"Tagged", "tagged(n)", ""},
 	{"any", "anyOf(n)", ""},
+	// aliases declared in another package whose right-hand sides cannot be
+	// spelled here (an unnamed struct with unexported fields, a pointer to an
+	// unexported type)
+	{"hc.Span", "hc.MkSpan(idOf(n))", ""},
+	{"hc.Handle", "hc.MkHandle(idOf(n))", ""},
 }
 
 // Wider lists, for a value type, the other types it is assignable to (decided
@@ -64,6 +69,8 @@ var Wider = map[string][]string{
 	"time.Duration":  {"any", "fmt.Stringer"},
 	"Tagged":         {"any"},
 	"any":            {},
+	"hc.Span":        {"any"},
+	"hc.Handle":      {"any"},
 	"Token":          {"any", "Discarder"},
 	"Error":          {"any"},
 }
@@ -208,6 +215,10 @@ func nodeOf(h *hc.H, v any) any {
 		return h.NodeByID(int(x.Int64()))
 	case time.Duration:
 		return h.NodeByID(int(x))
+	case hc.Span:
+		return h.NodeByID(hc.SpanID(x))
+	case hc.Handle:
+		return h.NodeByID(hc.HandleID(x))
 	}
 	// lists of carriers (sugar terms)
 	rv := reflect.ValueOf(v)
